@@ -1,5 +1,5 @@
 import Aiorpcx.C05.Lemmas
-import Aiorpcx.C04.Props
+import Aiorpcx.C04.Roundtrip
 /-! `receive_message` and its helpers: what they can raise, what they do to the outstanding
 requests, and what their errors carry. -/
 namespace Aiorpcx.C05
